@@ -15,7 +15,7 @@ import (
 // C08 — validation results are written back: 304 freshens, 200 replaces.
 func init() { register(&Check{ID: "C08", Run: runC08, ShardDepth: 3}) }
 
-var c08Answers = []string{"304", "304+X-New", "304+max-age=20", "304+CL+hop", "304+CL+hop-lowercase", "304-no-date", "200-same-vary", "200-other-vary", "200-no-store", "500"}
+var c08Answers = []string{"304", "304+X-New", "304+max-age=20", "304+CL+hop", "304+CL+hop-lowercase", "304-no-date", "304+two-cc-lines", "200-same-vary", "200-other-vary", "200-no-store", "500"}
 
 func runC08(x *mc.X) {
 	kind := mc.Pick(x, "stored.kind", []string{"max-age=10", "heuristic", "max-age=5,swr=100"})
@@ -40,18 +40,30 @@ func runC08(x *mc.X) {
 		return h
 	}
 	ccv := map[string]string{"max-age=10": "max-age=10", "heuristic": "", "max-age=5,swr=100": "max-age=5, stale-while-revalidate=100"}[kind]
-	// other variants first (long-lived), then the variant under validation
+	// the other (long-lived) variants are stored before or after the variant under validation, one second apart,
+	// so that the validated entry's reference is rewritten in the middle of the URL's index as well as at its end
 	others := map[string]string{}
-	for i := 0; i < nOther; i++ {
-		a := strconv.Itoa(i + 2)
-		answer(w, RS{Status: 200, H: H("Vary", "X-A", "Cache-Control", "max-age=100000")})
-		o := get(w, U, "X-A", a)
-		logObs(x, "GET X-A="+a+" (long-lived variant)", o)
-		others[a] = o.Tok
+	storeOthers := func() {
+		for i := 0; i < nOther; i++ {
+			a := strconv.Itoa(i + 2)
+			answer(w, RS{Status: 200, H: H("Vary", "X-A", "Cache-Control", "max-age=100000")})
+			o := get(w, U, "X-A", a)
+			logObs(x, "GET X-A="+a+" (long-lived variant)", o)
+			others[a] = o.Tok
+			world.Advance(secs(1))
+		}
+	}
+	targetFirst := nOther > 0 && x.Choose("target-stored-first", 2) == 1
+	if !targetFirst {
+		storeOthers()
 	}
 	answer(w, RS{Status: 200, H: baseH(ccv)})
 	o1 := get(w, U, "X-A", "1")
 	logObs(x, fmt.Sprintf("GET X-A=1 (origin: 200 %v)", baseH(ccv)), o1)
+	if targetFirst {
+		world.Advance(secs(1))
+		storeOthers()
+	}
 	if o1.Tok == "" {
 		x.Failf("harness: no token", "%s", o1)
 		return
@@ -101,6 +113,8 @@ func runC08(x *mc.X) {
 					hh = append(hh, [2]string{"X-New", fmt.Sprintf("n%d", r)})
 				case "304+max-age=20":
 					hh = append(hh, [2]string{"Cache-Control", "max-age=20"})
+				case "304+two-cc-lines": // a repeated field: both lines replace the stored field
+					hh = append(hh, [2]string{"Cache-Control", "public"}, [2]string{"Cache-Control", "max-age=20"}, [2]string{"Link", "<a>; rel=x"}, [2]string{"Link", "<b>; rel=y"})
 				case "304+CL+hop":
 					hh = append(hh, [2]string{"Content-Length", "9999"}, [2]string{"Connection", "X-Hop"}, [2]string{"X-Hop", "h"}, [2]string{"Keep-Alive", "timeout=5"})
 				case "304+CL+hop-lowercase": // connection options are case-insensitive
@@ -192,8 +206,8 @@ func runC08(x *mc.X) {
 				case "Content-Length", "Connection", "Keep-Alive", "X-Hop", "Date":
 					continue
 				}
-				if f.Header.Get(k) != v[0] {
-					x.Failf("304 field not replaced in the stored response ("+path+" "+ans+"): "+k, "field %s = %q on the follow-up, the 304 carried %q", k, f.Header.Get(k), v[0])
+				if strings.Join(f.Header.Values(k), "\x00") != strings.Join(v, "\x00") {
+					x.Failf("304 field not replaced in the stored response ("+path+" "+ans+"): "+k, "field %s = %q on the follow-up, the 304 carried %q", k, f.Header.Values(k), v)
 				}
 			}
 			if strings.HasPrefix(ans, "304+CL+hop") {
